@@ -48,6 +48,14 @@ static void hook_common(tpt_p tpt, int start) {
 	}
 	if (idx < 0 || idx > pw->n) { pw->hook_bad++; return; }
 	if (start) pw->start_cnt[idx]++; else pw->stop_cnt[idx]++;
+	if (start && W.hook_shutdown_idx1 == idx + 1) {
+		/* the application decides in a start hook that it does not want to run after all (for the virtual thread
+		 * that is inside tp_create, for a worker on the worker itself) */
+		W.hook_shutdown_idx1 = 0;
+		sim_probe(idx == pw->n ? "hook.shutdown_from_virtual_start_hook" : "hook.shutdown_from_worker_start_hook");
+		tp_shutdown(tp);
+		pw->shutdown_called = 1;
+	}
 	if (!start && W.stop_hook_selfsend && idx < pw->n && W.nmsgs < MAX_MSG - 4) {
 		/* a thread that is stopping sends to ITSELF with the self-direct option (clean-up code does that): the
 		 * direct-call option does not depend on the destination still serving its queue */
